@@ -123,6 +123,7 @@ let () =
         let valid = f.(9) = "11" in
         let dom = valid && members_disjoint a && members_disjoint b in
         count ("class_" ^ cls);
+        if Array.length f > 13 && f.(13) <> "0" then count (if f.(13).[0] = '-' then "pow2_scaled_down" else "pow2_scaled_up");
         if not valid then count "skipped_invalid"
         else if not dom then count "outside_domain_overlapping_members"
         else begin
@@ -188,7 +189,9 @@ let () =
           end;
           (* the labelled overlay behind Relate(a,b), when the hook exported it *)
           if Array.length f > 12 && f.(12) <> "-" && String.length rab = 9 then begin
-            let o = Overlay.parse_overlay f.(12) in
+            let shift = if Array.length f > 13 then int_of_string f.(13) else 0 in
+            if shift <> 0 then count "overlay_pow2_rescaled";
+            let o = Overlay.parse_overlay ~shift f.(12) in
             count "overlay_dumps";
             if o.Overlay.matrix <> rab then
               fail id "CORR" "overlay_is_relates" (Printf.sprintf "matrix of the dumped overlay=%s Relate=%s" o.Overlay.matrix rab);
